@@ -78,3 +78,21 @@ pub fn hash(data: &str, algorithm: PersistedDocumentsHashAlgorithm) -> String {
         }
     }
 }
+
+/// The query text is embedded in a single-quoted JavaScript string literal, in
+/// which its line breaks are already written as line continuations (a backslash
+/// followed by a line break). Apostrophes and every other backslash (e.g. those
+/// of GraphQL string escapes) must be escaped.
+pub(crate) fn escape_for_single_quoted_js_string(query_text: &str) -> String {
+    let mut escaped = String::with_capacity(query_text.len());
+    let mut chars = query_text.chars().peekable();
+    while let Some(c) = chars.next() {
+        match c {
+            '\\' if chars.peek() == Some(&'\n') => escaped.push('\\'),
+            '\\' => escaped.push_str("\\\\"),
+            '\'' => escaped.push_str("\\'"),
+            _ => escaped.push(c),
+        }
+    }
+    escaped
+}
